@@ -1777,6 +1777,9 @@ func buildCache(typ reflect.Type, cache map[string][]int, parent []int) {
 				buildCache(typ, cache, index)
 			}
 		}
-		cache[field.Name] = index
+		// as in Go, the shallowest field of a name wins over promoted ones
+		if shallower, ok := cache[field.Name]; !ok || len(index) < len(shallower) {
+			cache[field.Name] = index
+		}
 	}
 }
